@@ -39,7 +39,8 @@ def pop3d_case_from_report(d):
             if len(p) == 4:
                 out.append("%s:%s:%d:%d" % (p[0], p[1], 1000000000 - int(p[2]), 1000000000 - int(p[3])))
         files = ",".join(out) or "-"
-    return "P %s %s %s %s" % (d.get("uid", "1000"), d.get("havedir", "1"), files, d.get("in", "-"))
+    flt = d.get("faults")
+    return "P %s %s %s %s%s" % (d.get("uid", "1000"), d.get("havedir", "1"), files, d.get("in", "-"), (" " + flt) if flt else "")
 
 
 def popup_case_from_report(d):
@@ -83,7 +84,7 @@ def main():
     if s.ok and c.driver_ok:
         try:
             hp = s.cc(os.path.join(VERIF, "harness/c19_pop3d.c"), os.path.join(s.dir, "h_c19_pop3d"),
-                      link_like="qmail-pop3d", objs_exclude=["timeoutread.o", "timeoutwrite.o"])
+                      link_like="qmail-pop3d", objs_exclude=["timeoutread.o", "timeoutwrite.o", "maildir.o"])
             hu = s.cc(os.path.join(VERIF, "harness/c19_popup.c"), os.path.join(s.dir, "h_c19_popup"),
                       link_like="qmail-popup", objs_exclude=["timeoutread.o", "timeoutwrite.o"])
             drv = driver_path("drv_c19")
